@@ -2,9 +2,17 @@ package main
 
 import (
 	"bytes"
+	"crypto/ed25519"
+	crand "crypto/rand"
+	"crypto/x509"
+	"crypto/x509/pkix"
+	"encoding/asn1"
 	"encoding/pem"
 	"fmt"
+	"math/big"
+	mrand "math/rand"
 	"strings"
+	"time"
 
 	"github.com/foxboron/go-uefi/efi/signature"
 )
@@ -33,12 +41,72 @@ func newC09Universe(c *Ctx) *c09Universe {
 	// index 10: PEM of cert A behind the text other tools put in front of the block (pem.Decode skips it)
 	pre := append([]byte("Bag Attributes\n    friendlyName: cert-A\nsubject=CN = cert-A\n\n"), pemOf(a)...)
 	u.data = [][]byte{h1, h2, h1[:31], append(append([]byte{}, h1...), 0x01), a, pemOf(a), b, cc, pemOf(cc), make([]byte, 20), pre}
+	// index 11: cert D, whose DER encoding is exactly as long as the PEM text of cert A: a size taken
+	// from the wrong form of a certificate then coincides with the size of a list that is really there.
+	// (generator of its own, so that the other properties that use this universe see the stream they saw before)
+	if d := makeCertOfLen(mrand.New(mrand.NewSource(c.Seed*7919+11)), "cert-D", len(pemOf(a))); d != nil {
+		u.data = append(u.data, d)
+	}
 	for _, d := range u.data {
 		if blk, _ := pem.Decode(d); blk != nil {
 			u.pems[hx(d)] = blk.Bytes
 		}
 	}
 	return u
+}
+
+// makeCertOfLen makes a certificate whose DER encoding has exactly n bytes (nil when none is found):
+// the Organization is padded in steps of two bytes (subject and issuer), an opaque extension in steps of one.
+func makeCertOfLen(rng *mrand.Rand, cn string, n int) []byte {
+	seed := make([]byte, ed25519.SeedSize)
+	rng.Read(seed)
+	key := ed25519.NewKeyFromSeed(seed)
+	serial := big.NewInt(0x40000000 + int64(rng.Intn(0x3fffffff)))
+	for org := 0; org < 3; org++ {
+		for ext := 0; ext <= n; ext++ {
+			tmpl := &x509.Certificate{
+				SerialNumber: serial,
+				Subject:      pkix.Name{CommonName: cn, Organization: []string{strings.Repeat("x", 3+org)}},
+				NotBefore:    time.Unix(1700000000, 0), NotAfter: time.Unix(1900000000, 0),
+				ExtraExtensions: []pkix.Extension{{Id: asn1.ObjectIdentifier{1, 3, 6, 1, 4, 1, 55555, 1}, Value: bytes.Repeat([]byte{0x5a}, ext)}},
+			}
+			der, err := x509.CreateCertificate(crand.Reader, tmpl, tmpl, key.Public(), key)
+			if err != nil {
+				return nil
+			}
+			if len(der) == n {
+				return der
+			}
+			if len(der) > n {
+				break
+			}
+		}
+	}
+	return nil
+}
+
+// cloneDb is a deep copy of a database: no list, slice or array is shared with the original
+func cloneDb(db *signature.SignatureDatabase) *signature.SignatureDatabase {
+	out := signature.NewSignatureDatabase()
+	for _, l := range *db {
+		cp := *l
+		cp.SignatureHeader = append([]byte{}, l.SignatureHeader...)
+		cp.Signatures = make([]signature.SignatureData, 0, len(l.Signatures))
+		for _, sg := range l.Signatures {
+			cp.Signatures = append(cp.Signatures, signature.SignatureData{Owner: sg.Owner, Data: append([]byte{}, sg.Data...)})
+		}
+		*out = append(*out, &cp)
+	}
+	return out
+}
+
+// heldList is a list the caller handed to AppendList / AppendDatabase and goes on using: the caller's
+// pointer, the list's type and the position in the database at which the handed-over list is
+// expected (-1 once the database dropped it or was replaced by a decoded one)
+type heldList struct {
+	sl  *signature.SignatureList
+	typ string
+	idx int
 }
 
 func (u *c09Universe) pemTable() string {
@@ -55,6 +123,15 @@ func (u *c09Universe) pemTable() string {
 func isScheme(t []byte) bool {
 	_, ok := signature.ValidEFISignatureSchemes[guidFromWire(t)]
 	return ok
+}
+
+func containsSig(sigs [][2]string, x [2]string) bool {
+	for _, y := range sigs {
+		if y == x {
+			return true
+		}
+	}
+	return false
 }
 
 func containsTriple(abs []triple, x triple) bool {
@@ -178,16 +255,27 @@ func c09History(c *Ctx, cs Case, prop string) {
 		return n
 	}
 	nEmpty := emptyLists(lists)
+	curLists := lists // the Spec view of the database before the current operation
 	var goOuts []string
 	appendedEmpty := 0 // signature-less lists handed to AppendList (known finding F20)
+	var held []*heldList // the lists handed to AppendList / AppendDatabase so far: the caller still has them
 	for i, op := range ops {
 		f := strings.Split(op, ",")
 		before := abs
 		var class string
 		var answer string
+		var handed *signature.SignatureList // the list this operation hands to the database
+		var otherForm *signature.SignatureDatabase
+		var otherClass string
 		panicked, pmsg := safely(func() {
 			switch f[0] {
 			case "A":
+				if blk, _ := pem.Decode(unhx(f[3])); prop == "C09" && blk != nil && f[1] == hx(tX509) {
+					// X.509 data supplied as PEM is stored as DER: the same certificate supplied as DER to
+					// a copy of the database (nothing shared) has to end the same way
+					otherForm = cloneDb(db)
+					otherClass = errClass(otherForm.Append(guidFromWire(unhx(f[1])), guidFromWire(unhx(f[2])), blk.Bytes))
+				}
 				err := db.Append(guidFromWire(unhx(f[1])), guidFromWire(unhx(f[2])), unhx(f[3]))
 				class = errClass(err)
 			case "R":
@@ -207,6 +295,7 @@ func c09History(c *Ctx, cs Case, prop string) {
 					sl.AppendBytes(guidFromWire(e[0]), e[1])
 				}
 				db.AppendList(sl)
+				handed = sl
 				class = "ok"
 			case "LM":
 				sl := signature.NewSignatureList(guidFromWire(unhx(f[1])))
@@ -217,6 +306,7 @@ func c09History(c *Ctx, cs Case, prop string) {
 					appendedEmpty++
 				}
 				db.AppendList(sl)
+				handed = sl
 				class = "ok"
 			case "LH", "DH":
 				// AppendList (LH) / AppendDatabase (DH) of a hand-built, well-formed list that carries a
@@ -238,7 +328,32 @@ func c09History(c *Ctx, cs Case, prop string) {
 					other := signature.SignatureDatabase{sl}
 					db.AppendDatabase(&other)
 				}
+				handed = sl
 				class = "ok"
+			case "HA", "HR":
+				// the caller goes on editing a list it handed over earlier (list-level AppendBytes /
+				// RemoveBytes on the pointer it holds): f = op, ordinal of the handed-over list, entry
+				k, es := atoi(f[1]), splitSigs(f[2])
+				class = "nolist"
+				if k >= len(held) || len(es) != 1 {
+					break
+				}
+				h, o, d := held[k], es[0][0], es[0][1]
+				if f[0] == "HR" && h.idx >= 0 && h.idx < len(curLists) && len(curLists[h.idx].sigs) == 1 && curLists[h.idx].sigs[0] == [2]string{hx(o), hx(d)} {
+					// would leave a signature-less list inside the database: known finding F20, not repeated here
+					class = "skip"
+					break
+				}
+				var err error
+				if f[0] == "HA" {
+					err = h.sl.AppendBytes(guidFromWire(o), d)
+				} else {
+					err = h.sl.RemoveBytes(guidFromWire(o), d)
+				}
+				class = errClass(err)
+				if h.idx < 0 {
+					class = "detached" // no longer the database's business, whatever the list said
+				}
 			case "LA":
 				// list-level AppendBytes on a list that is part of the database
 				i := atoi(f[1])
@@ -257,6 +372,33 @@ func c09History(c *Ctx, cs Case, prop string) {
 		if panicked {
 			fail(i, "panic: "+pmsg, "panic", "return", "")
 			return
+		}
+		// where the handed-over lists are expected inside the database (the drivers keep the same book)
+		switch {
+		case handed != nil:
+			held = append(held, &heldList{handed, f[1], len(*db) - 1})
+		case f[0] == "R" && class == "ok":
+			for j, l := range curLists { // the first list of this type and size that holds the entry: dropped if that was its only one
+				if l.typ == f[1] && l.size == fmt.Sprint(len(unhx(f[3]))+16) && len(l.sigs) > 0 && containsSig(l.sigs, [2]string{f[2], f[3]}) {
+					if len(l.sigs) == 1 {
+						for _, h := range held {
+							if h.idx == j {
+								h.idx = -1
+							} else if h.idx > j {
+								h.idx--
+							}
+						}
+					}
+					break
+				}
+			}
+		case f[0] == "E" && class == "ok":
+			for _, h := range held {
+				h.idx = -1
+			}
+		}
+		if f[0] == "HA" || f[0] == "HR" {
+			c.Class("history/held-list-" + f[0] + "-" + class) // distribution only
 		}
 		if (f[0] == "A" || f[0] == "R") && class == "ok" {
 			for _, l := range *db { // distribution only: edits that reached a list with a signature header
@@ -297,6 +439,7 @@ func c09History(c *Ctx, cs Case, prop string) {
 			return
 		}
 		abs = absOf(lists)
+		curLists = lists
 		if prop == "C09" {
 			for _, l := range lists {
 				seen := map[[2]string]bool{}
@@ -331,6 +474,13 @@ func c09History(c *Ctx, cs Case, prop string) {
 					}
 				} else if class != "ok" || !insertedOne(before, abs, x) {
 					fail(i, "a valid append must add exactly this one entry and keep the others in order", class+" "+absStr(abs), "ok "+absStr(before)+" + "+absStr([]triple{x}), "")
+				}
+				if otherForm != nil && (otherClass != class || !bytes.Equal(otherForm.Bytes(), enc)) {
+					// the encodings differ: compare the entry collections (a different split into lists alone is not held against it)
+					if ol, ok := specOf(otherForm.Bytes()); !ok || otherClass != class || !sameTriples(absOf(ol), abs) {
+						fail(i, "X.509 data supplied as PEM must be stored as DER: appending the PEM form and appending the DER form of one certificate to the same database end differently",
+							"PEM: "+class+" "+absStr(abs), "DER: "+otherClass+" "+absStr(absOf(ol)), "")
+					}
 				}
 			case "R":
 				x := triple{f[1], f[2], f[3]}
@@ -375,6 +525,29 @@ func c09History(c *Ctx, cs Case, prop string) {
 			case "E":
 				if !sameTriples(before, abs) {
 					fail(i, "encode/decode changed the entry collection", absStr(abs), absStr(before), "")
+				}
+			case "HA", "HR":
+				// whatever the caller does to a list it handed over, the database changes by at most that
+				// one entry: all other entries keep content and relative order
+				if class == "nolist" || class == "skip" || class == "detached" {
+					if !sameTriples(before, abs) {
+						fail(i, "an edit of a list that is not (or no longer) part of the database changed the entry collection", class+" "+absStr(abs), absStr(before), "")
+					}
+					break
+				}
+				h, e := held[atoi(f[1])], splitSigs(f[2])[0]
+				nd := hx(e[1])
+				if blk, _ := pem.Decode(e[1]); blk != nil && f[0] == "HA" && h.typ == hx(tX509) {
+					nd = hx(blk.Bytes)
+				}
+				x := triple{h.typ, hx(e[0]), nd}
+				switch {
+				case sameTriples(before, abs):
+				case f[0] == "HA" && class == "ok" && insertedOne(before, abs, x):
+				case f[0] == "HR" && class == "ok" && insertedOne(abs, before, x):
+				default:
+					fail(i, "the caller edited the list it had handed to AppendList: the database may change by that one entry only, all other entries keep content and relative order",
+						class+" "+absStr(abs), absStr(before)+" -/+ "+absStr([]triple{x}), "")
 				}
 			}
 			if f[0] != "R" {
@@ -451,6 +624,22 @@ func genHistory(c *Ctx, u *c09Universe, maxLen int) Case {
 	// bias towards a small sub-universe so that duplicates and removals of present entries happen
 	var recent [][3][]byte
 	ops := []string{}
+	// the lists handed to AppendList / AppendDatabase so far, in order (the ordinal the HA / HR operations use)
+	type handedList struct {
+		t       []byte
+		entries [][2][]byte
+	}
+	var handed []*handedList
+	hand := func(t []byte, es []string) {
+		h := &handedList{t: t}
+		for _, e := range splitSigs(strings.Join(es, "+")) {
+			if der, isPem := u.pems[hx(e[1])]; isPem {
+				e[1] = der
+			}
+			h.entries = append(h.entries, e)
+		}
+		handed = append(handed, h)
+	}
 	for i := 0; i < n; i++ {
 		t, o, d := pick(u.types), pick(u.owners), pick(u.data)
 		if c.Rng.Intn(3) != 0 { // type-appropriate data most of the time
@@ -458,7 +647,7 @@ func genHistory(c *Ctx, u *c09Universe, maxLen int) Case {
 			case bytes.Equal(t, tSHA256):
 				d = u.data[c.Rng.Intn(4)]
 			case bytes.Equal(t, tX509):
-				d = u.data[[]int{4, 5, 6, 7, 8, 10}[c.Rng.Intn(6)]]
+				d = u.data[[]int{4, 5, 6, 7, 8, 10, len(u.data) - 1}[c.Rng.Intn(7)]]
 			}
 		}
 		if len(recent) > 0 && c.Rng.Intn(2) == 0 {
@@ -484,7 +673,7 @@ func genHistory(c *Ctx, u *c09Universe, maxLen int) Case {
 				}
 			}
 		}
-		switch k := c.Rng.Intn(21); {
+		switch k := c.Rng.Intn(24); {
 		case k < 8:
 			ops = append(ops, fmt.Sprintf("A,%s,%s,%s", hx(t), hx(o), hx(d)))
 			recent = append(recent, [3][]byte{t, o, d})
@@ -496,15 +685,19 @@ func genHistory(c *Ctx, u *c09Universe, maxLen int) Case {
 			m := 1 + c.Rng.Intn(2)
 			es := []string{}
 			for j := 0; j < m; j++ {
-				dd := d
+				// all entries of the probe list have one size: lengths are compared on the stored (DER) form
+				der := func(x []byte) []byte {
+					if y, isPem := u.pems[hx(x)]; isPem {
+						return y
+					}
+					return x
+				}
+				dd := der(d)
 				if j > 0 && len(recent) > 0 {
 					r := recent[c.Rng.Intn(len(recent))]
-					if len(r[2]) == len(d) {
-						dd = r[2]
+					if len(der(r[2])) == len(dd) {
+						dd = der(r[2])
 					}
-				}
-				if _, isPem := u.pems[hx(dd)]; isPem {
-					dd = u.pems[hx(dd)]
 				}
 				es = append(es, hx(o)+":"+hx(dd))
 			}
@@ -530,7 +723,64 @@ func genHistory(c *Ctx, u *c09Universe, maxLen int) Case {
 				es = append(es, hx(o2)+":"+hx(dd))
 			}
 			ops = append(ops, fmt.Sprintf("L,%s,%d,%s", hx(lt), len(dd)+16, strings.Join(es, "+")))
+			hand(lt, es)
 			recent = append(recent, [3][]byte{lt, o, dd})
+		case k >= 21:
+			// the caller goes on using a list it handed over: list-level AppendBytes / RemoveBytes on its
+			// own pointer, interleaved with the database-level operations around it
+			if len(handed) == 0 || c.Rng.Intn(4) == 0 {
+				// hand over a list of two to four entries of one size first (all built through AppendBytes)
+				lt := [][]byte{tX509, tSHA256}[c.Rng.Intn(2)]
+				pool := [][]byte{u.data[0], u.data[1]}
+				if bytes.Equal(lt, tX509) {
+					pool = [][]byte{u.data[4], u.data[6]}
+				}
+				var es []string
+				m := 2 + c.Rng.Intn(3)
+				for _, j := range c.Rng.Perm(4)[:m] {
+					es = append(es, hx(u.owners[j%2])+":"+hx(pool[j/2]))
+					recent = append(recent, [3][]byte{lt, u.owners[j%2], pool[j/2]})
+				}
+				ops = append(ops, fmt.Sprintf("L,%s,%d,%s", hx(lt), len(pool[0])+16, strings.Join(es, "+")))
+				hand(lt, es)
+				break
+			}
+			hk := c.Rng.Intn(len(handed))
+			h := handed[hk]
+			if c.Rng.Intn(2) == 0 {
+				// remove: mostly an entry the list was given, sometimes whatever came up
+				ho, hd := o, d
+				if len(h.entries) > 0 && c.Rng.Intn(5) != 0 {
+					e := h.entries[c.Rng.Intn(len(h.entries))]
+					ho, hd = e[0], e[1]
+				}
+				ops = append(ops, fmt.Sprintf("HR,%d,%s:%s", hk, hx(ho), hx(hd)))
+			} else {
+				// append: mostly data of the size the list holds (in any textual form), sometimes whatever came up
+				ho, hd := o, d
+				if len(h.entries) > 0 && c.Rng.Intn(5) != 0 {
+					var fit [][]byte
+					for _, x := range u.data {
+						der, isPem := u.pems[hx(x)]
+						if !isPem {
+							der = x
+						}
+						if len(der) == len(h.entries[0][1]) && (!isPem || bytes.Equal(h.t, tX509)) {
+							fit = append(fit, x)
+						}
+					}
+					if len(fit) > 0 {
+						hd = fit[c.Rng.Intn(len(fit))]
+					}
+				}
+				ops = append(ops, fmt.Sprintf("HA,%d,%s:%s", hk, hx(ho), hx(hd)))
+				der, isPem := u.pems[hx(hd)]
+				if !isPem || !bytes.Equal(h.t, tX509) {
+					der = hd
+				}
+				h.entries = append(h.entries, [2][]byte{ho, der})
+				recent = append(recent, [3][]byte{h.t, ho, der})
+			}
 		case k < 19:
 			ops = append(ops, "E")
 		case k == 20:
@@ -564,13 +814,16 @@ func genHistory(c *Ctx, u *c09Universe, maxLen int) Case {
 			}
 			recent = append(recent, [3][]byte{lt, o2, dd})
 			ops = append(ops, fmt.Sprintf("%s,%s,%d,%s,%s", []string{"LH", "DH"}[c.Rng.Intn(2)], hx(lt), len(dd)+16, hx(randBytes(c, 1+c.Rng.Intn(12))), strings.Join(es, "+")))
+			hand(lt, es)
 		default:
 			// a list built through the list-level API with certificates of two different lengths
 			if r := c.Rng.Intn(6); r == 5 {
 				// AppendList of a list nothing was appended to (known finding F20)
 				ops = append(ops, fmt.Sprintf("LM,%s,-", hx([][]byte{tSHA256, tX509}[c.Rng.Intn(2)])))
+				hand(nil, nil)
 			} else if r < 2 {
 				ops = append(ops, fmt.Sprintf("LM,%s,%s", hx(tX509), hx(u.owners[0])+":"+hx(u.data[4])+"+"+hx(u.owners[1])+":"+hx(u.data[7])))
+				hand(tX509, []string{hx(u.owners[0]) + ":" + hx(u.data[4])})
 			} else if r == 2 {
 				// ... with one certificate in several of its textual forms (DER, PEM, PEM behind text) and others:
 				// the list-level AppendBytes has to recognise the duplicate whatever form it arrives in
@@ -580,6 +833,7 @@ func genHistory(c *Ctx, u *c09Universe, maxLen int) Case {
 					es = append(es, hx(u.owners[c.Rng.Intn(2)])+":"+hx(forms[c.Rng.Intn(len(forms))]))
 				}
 				ops = append(ops, fmt.Sprintf("LM,%s,%s", hx(tX509), strings.Join(es, "+")))
+				hand(tX509, es)
 			} else {
 				ops = append(ops, "E")
 			}
@@ -677,8 +931,8 @@ func c09Gen(c *Ctx) {
 
 func init() {
 	register("C09", &PropDef{
-		Rule:   "random histories of append / remove / BytesExists / Exists / AppendList / AppendList and AppendDatabase of a hand-built list with a 1..12-byte SignatureHeader (HeaderSize > 0; types SHA1 / SHA384, which only a caller can build; later appends and removes are steered into that list) / encode-decode over types {X509, SHA256, SHA1 (valid, undecodable), unknown GUID} x 2 owners x {two hashes, 31- and 33-byte strings, cert A DER/PEM/PEM behind a text preamble, cert B (|B|=|A|), cert C DER/PEM (|C|!=|A|), 20 bytes}, started from empty or from a decoded well-formed stream; operands are biased towards recently used triples. Non-trivial: at least two operations of at least two kinds; distinct = distinct histories.",
-		Assume: []string{"lists handed to AppendList / AppendDatabase are fresh, well-formed (ListSize = 28 + HeaderSize + n*SignatureSize, HeaderSize = len(SignatureHeader)) and duplicate-free (slice aliasing between two databases is outside the model); an empty one reproduces known finding F20", "a decoded start database has no duplicate entry inside a list"},
+		Rule:   "random histories of append / remove / BytesExists / Exists / AppendList / AppendList and AppendDatabase of a hand-built list with a 1..12-byte SignatureHeader (HeaderSize > 0; types SHA1 / SHA384, which only a caller can build; later appends and removes are steered into that list) / HELD-LIST operations (the caller keeps the pointer of every list it handed to AppendList / AppendDatabase and goes on editing it through the list-level AppendBytes / RemoveBytes - lists of two to four equal-sized entries are handed over for this - interleaved with the database-level operations; in the library the database's list is that very list, which the oracle, the model driver and the translated-code driver follow with a book of positions; an edit may change the database by that one entry only, a list the database dropped or that a decode replaced must not change it at all; a RemoveBytes that would leave a signature-less list inside the database is skipped: known finding F20) / encode-decode over types {X509, SHA256, SHA1 (valid, undecodable), unknown GUID} x 2 owners x {two hashes, 31- and 33-byte strings, cert A DER/PEM/PEM behind a text preamble, cert B (|B|=|A|), cert C DER/PEM (|C|!=|A|), 20 bytes, cert D whose DER length equals the length of the PEM text of cert A}, started from empty or from a decoded well-formed stream; operands are biased towards recently used triples. Every append of an X.509 certificate in PEM form is repeated with the DER form on a deep copy of the database: error class and entry collection have to be the same (PEM is stored as DER, whatever lists are present). Non-trivial: at least two operations of at least two kinds; distinct = distinct histories.",
+		Assume: []string{"lists handed to AppendList / AppendDatabase are fresh, well-formed (ListSize = 28 + HeaderSize + n*SignatureSize, HeaderSize = len(SignatureHeader)) and duplicate-free (slice aliasing between two databases is outside the model; the caller's pointer to a handed-over list is inside it since the held-list operations); an empty one reproduces known finding F20", "a decoded start database has no duplicate entry inside a list"},
 		Eval:   c09Eval,
 		Gen:    c09Gen,
 	})
